@@ -579,8 +579,8 @@ Qed.
 Lemma pop_inv c s i : Inv s ->
   valid_op (m_live s) (Pop i) = true ->
   Inv (fst (m_pop c s i)) /\
-  m_live (fst (m_pop c s i)) = fst (spec_step (m_live s) (Pop i)) /\
-  snd (m_pop c s i) = snd (spec_step (m_live s) (Pop i)).
+  m_live (fst (m_pop c s i)) = fst (spec_step1 (m_live s) (Pop i)) /\
+  snd (m_pop c s i) = snd (spec_step1 (m_live s) (Pop i)).
 Proof.
   intros [H HL] V. unfold m_pop.
   set (at_end := match i with None => true
@@ -601,7 +601,7 @@ Proof.
       destruct (cull_inv c _ P1) as [C1 C2]. cbn [fst snd].
       split; [exact C1|]. rewrite C2. rewrite P2.
       set (A := m_live {| items := rev r; imap := d_del (imap s) x; dead := dead s |}) in *.
-      destruct i as [i|]; cbn [spec_step].
+      destruct i as [i|]; cbn [spec_step1].
       * cbn [valid_op] in V. destruct (norm_index (length (m_live s)) i) as [j|] eqn:N; [|discriminate].
         rewrite P2 in N. rewrite N.
         assert (Ej : j = length A).
@@ -619,7 +619,7 @@ Proof.
     destruct (real_index_ok s i j H N) as (r & x & R1 & R2 & R3).
     rewrite R1, R2.
     destruct (kill_inv0 s r x H R2) as [K1 K2].
-    destruct (cull_inv c _ K1) as [C1 C2]. cbn [fst snd spec_step]. rewrite N. cbn [fst snd].
+    destruct (cull_inv c _ K1) as [C1 C2]. cbn [fst snd spec_step1]. rewrite N. cbn [fst snd].
     split; [exact C1|]. rewrite C2, K2. unfold m_live. rewrite (live_split _ _ _ R2).
     rewrite (l_delete_app _ _ x j R3), (nth_app_mid _ _ x j R3). split; reflexivity.
 Qed.
